@@ -82,6 +82,7 @@ func (f *osFile) IsAppend() bool {
 
 // SetAppend implements the same method as documented on sys.File
 func (f *osFile) SetAppend(enable bool) (errno experimentalsys.Errno) {
+	prev := f.flag
 	if enable {
 		f.flag |= experimentalsys.O_APPEND
 	} else {
@@ -90,7 +91,11 @@ func (f *osFile) SetAppend(enable bool) (errno experimentalsys.Errno) {
 
 	// appendMode cannot be changed later, so we have to re-open the file
 	// https://github.com/golang/go/blob/go1.23/src/os/file_unix.go#L60
-	return fileError(f, f.closed, f.reopen())
+	if errno = fileError(f, f.closed, f.reopen()); errno != 0 {
+		// The file is still open the way it was: keep reporting that.
+		f.flag = prev
+	}
+	return
 }
 
 func (f *osFile) reopen() (errno experimentalsys.Errno) {
